@@ -194,7 +194,7 @@ def run_loop(ctx, pid):
         if r["dot"] is None:
             raise HarnessError("TLC wrote no state graph for %s: %s" % (_ckey(c), r["out"][-300:]))
         nodes, edges, init = tlc.parse_dot(r["dot"])
-        cap = 3000 if q else 40000
+        cap = 3000 if q else 12000
         paths, capped = tlc.all_paths(nodes, edges, init, cap=cap)
         mode_txt = "all-paths"
         if capped:
@@ -261,7 +261,7 @@ def run_loop(ctx, pid):
                     if mi:
                         o["max_iter"] = mi
                     base.append(_e1job(D, "det", o, seed))
-    st = explore(base, ["ans"], 1, sink, name="det/b1", cap=None if q else 20000)
+    st = explore(base, ["ans"], 1, sink, name="det/b1", cap=None if q else 10000)
     # budget window (complete), deterministic
     bw = []
     for D in (1, 2):
